@@ -185,6 +185,10 @@ class C15(Spec):
         if rext != ext:
             return ("extensibility_lost", "%s: extensible flag of the Rust range is %d" % (src, rext))
         if not (kmin <= lo2 and hi2 <= kmax):
+            if lk != 0 and not sgn and ext and hk == 0 and hi < 0:
+                # the listed family F15-1 does not reach here: an extensible range with a negative upper bound is mapped to i64
+                return ("no_lower_bound_unsigned_negative_upper_extensible",
+                        "%s -> %s: not even the upper bound fits the unsigned type" % (src, KNAME[kind]))
             if lk != 0 and not sgn:
                 return ("no_lower_bound_unsigned",
                         "%s -> %s: no lower bound (MIN/absent) is taken as 0: negative values permitted by the constraint "
@@ -253,6 +257,9 @@ class C15(Spec):
         if lk == 0 and hk == 0 and lo > hi:
             return None
         src = src_text(lk, lo, hk, hi, ext)
+        if lk != 0 and o[1] in KINDS and not KINDS[o[1]][3] and ext and hk == 0 and hi < 0:
+            return ("no_lower_bound_unsigned_negative_upper_extensible",
+                    "%s -> %s: not even the upper bound fits the unsigned type" % (src, KNAME[o[1]]))
         if lk != 0 and o[1] in KINDS and not KINDS[o[1]][3]:
             # same family as on 3101: the accessor's return type / the constants' type is the unsigned type
             return ("no_lower_bound_unsigned",
